@@ -59,7 +59,7 @@ def notes_entries(fam):
     if nxt:
         sec = sec[:nxt.start()]
     out = {}
-    blocks = re.split(r"^\W*(C\d\d)\b.*$", sec, flags=re.M)
+    blocks = re.split(r"^\W*(C\d\d)\b", sec, flags=re.M)
     for i in range(1, len(blocks) - 1, 2):
         pid, body = blocks[i], " ".join(blocks[i + 1].split())
         def grab(key):
